@@ -56,8 +56,68 @@ def parse_ctx_line(line: str) -> gen_ctx.Ctx:
     return ctx
 
 
+def _val(v: str):
+    if v.startswith("T,"):
+        _, code, dims = v.split(",")
+        return ("T", code, tuple(int(x) for x in dims.split(".")) if dims else ())
+    return (v,)
+
+
+def _slot(sp: str, v: str):
+    if sp == "-":
+        return gen_ctx.Slot(None, None, False, _val(v))
+    cls, opt, shape = sp.split(",", 2)
+    if opt not in ("0", "1", "4", "5", "7"):
+        raise ValueError("general union")
+    return gen_ctx.Slot(cls, None if shape == "<None>" else shape, opt != "0", _val(v))
+
+
+def parse_call_line(line: str) -> gen_ctx.Ctx:
+    """rebuild a Ctx from a CALL operation line (corpus / replay lines); raises when values do not match the hints' arity"""
+    f = line.split("\t")
+    ctx = gen_ctx.Ctx()
+    if f[3]:
+        for kv in f[3].split(";"):
+            k, v = kv.split(":")
+            ctx.scope[k] = int(v)
+    for it in f[4:]:
+        g = it.split("|")
+        if g[0] == "D":
+            continue
+        if g[0] == "P":
+            name, mode, specs, val = g[1], g[2], g[3], g[4]
+        else:
+            name, mode, specs, val = "return", g[1], g[2], g[3]
+            if mode == "-" or val == "!":
+                continue
+        if mode == "T":
+            sps = specs.split(";") if specs else []
+            if not val.startswith("U:"):
+                raise ValueError("non-tuple value for tuple hint")
+            vals = val[2:].split(";") if val[2:] else []
+            if len(sps) != len(vals):
+                raise ValueError("arity")
+            p = gen_ctx.Param(name, [_slot(a, b) for a, b in zip(sps, vals)], True)
+        else:
+            if val.startswith("U:"):
+                raise ValueError("tuple value for single hint")
+            p = gen_ctx.Param(name, [_slot(specs, val)], False)
+        if g[0] == "R":
+            ctx.ret = p
+        else:
+            ctx.params.append(p)
+    return ctx
+
+
 def ctx_of(case) -> gen_ctx.Ctx | None:
     c = case.meta.get("ctx")
+    if c is None and case.line.startswith("CALL"):
+        try:
+            c = parse_call_line(case.line)
+        except Exception:  # noqa: BLE001
+            return None
+        case.meta["ctx"] = c
+        return c
     if c is None:
         try:
             c = parse_ctx_line(case.line)
